@@ -295,8 +295,14 @@ def replay_exact(tdgl, a, tmp):
         gem = gm.edge_mesh
         where = {tuple(sorted(map(int, e))): k for k, e in enumerate(gem.edges)}
         idx = [where[tuple(sorted((i - 1, j - 1)))] for i, j in m["edges"]]
-        ev.append({"ev": "geom", "len": [qint(gem.edge_lengths[k]) for k in idx],
+        ev.append({"ev": "geom", "src": "code", "len": [qint(gem.edge_lengths[k]) for k in idx],
                    "dual": [qint(gem.dual_edge_lengths[k]) for k in idx], "area": [qint(x) for x in gm.areas]})
+        # ... and the first-principles weights of refops.geometry (the reference for the weights on float meshes)
+        fp = refops.geometry(np.array(m["pos"], dtype=float), np.array(m["tris"], dtype=np.int64) - 1)
+        where = {tuple(map(int, e)): k for k, e in enumerate(fp["edges"])}
+        idx = [where[tuple(sorted((i - 1, j - 1)))] for i, j in m["edges"]]
+        ev.append({"ev": "geom", "src": "ref", "len": [qint(fp["length"][k]) for k in idx],
+                   "dual": [qint(fp["dual"][k]) for k in idx], "area": [qint(x) for x in fp["area"]]})
     return {"kind": "exact", "mi": a["mi"], "pat": a["pat"], "geo": bool(a.get("geo")), "heavy": bool(a.get("heavy")),
             "comps": 0, "mesh": m, "ev": ev, "label": a.get("label", "")}
 
@@ -412,6 +418,9 @@ def make_float_mesh(tdgl, a):
         layer = tdgl.Layer(coherence_length=a.get("xi", 1.0), london_lambda=2.0, thickness=0.1, gamma=10.0)
         W, H = a.get("size", (5.0, 3.0))
         film = tdgl.Polygon("film", points=box(W, H, points=a.get("points", 40)))
+        if a.get("notch"):          # a re-entrant corner of the outline
+            film = film.difference(tdgl.Polygon(points=box(1.0, 1.2, center=(0.5, H / 2 - 0.3)))).resample(a.get("points", 40) + 8)
+            film.name = "film"
         if a.get("shape") == "disk":
             film = tdgl.Polygon("film", points=circle(W / 2, points=a.get("points", 40)))
         holes = []
@@ -425,6 +434,16 @@ def make_float_mesh(tdgl, a):
         dev.make_mesh(max_edge_length=a.get("mel", 0.6), smooth=a.get("smooth", 0))
         a["_device"] = dev
         return dev.mesh
+    if kind == "polygon":
+        # Polygon.make_mesh(min_points, smooth): for smooth >= 1 the submesh comes from Mesh.smooth itself
+        W, H = a.get("size", (5.0, 3.0))
+        film = tdgl.Polygon("film", points=box(W, H, points=a.get("points", 40)))
+        if a.get("notch"):
+            film = film.difference(tdgl.Polygon(points=box(1.0, 1.2, center=(0.5, H / 2 - 0.3))))
+        return film.make_mesh(min_points=a.get("min_points", 150), smooth=a.get("smooth", 0))
+    if kind == "smoothed":
+        # Mesh.smooth(n) (create_submesh=True) applied to a mesh obtained by another route
+        return make_float_mesh(tdgl, dict(a["base"])).smooth(a["n"])
     if kind == "lattice":
         nx, ny, s = a["nx"], a["ny"], a.get("scale", 0.37)
         b1, b2 = np.array(a.get("b1", (4.0, 0.0))) * s, np.array(a.get("b2", (2.0, 3.0))) * s
@@ -466,7 +485,13 @@ def float_trace(tdgl, a, tmp):
     from tdgl.solver.options import SparseSolver
 
     a = dict(a)
-    mesh = make_float_mesh(tdgl, a)
+    try:
+        mesh = make_float_mesh(tdgl, a)
+    except ValueError as e:
+        if a["kind"] != "smoothed" or "Malformed Voronoi cell" not in str(e):
+            raise
+        # Mesh.smooth refuses positions whose Voronoi cells are malformed (allowed; nothing to observe on this input)
+        return {"kind": "refused", "label": a.get("label"), "why": str(e)[:80]}
     dev = a.pop("_device", None)
     arr = refops.arrays_of(mesh)
     n, edges, length, dual, area, bidx, dirs = (arr[k] for k in ("n", "edges", "length", "dual", "area", "bidx", "directions"))
@@ -498,6 +523,35 @@ def float_trace(tdgl, a, tmp):
         "grad_exact_on_linear": quanta(G @ f, (alpha * dirs[:, 0] + beta * dirs[:, 1]) / length,
                                        scale=max(abs(alpha), abs(beta))),
     }
+    # the WEIGHTS from first principles: edge lengths, Voronoi dual lengths and cell areas recomputed from the raw site
+    # coordinates and triangles (refops.geometry, validated by TLC on the geometric exact instances), compared where the
+    # circumcentric dual is the Voronoi diagram (regular edges / well-centred sites, decided from the coordinates alone);
+    # the area-weighted identities are evaluated with THESE areas, not with mesh.areas
+    fp = refops.geometry(mesh.sites, mesh.elements)
+    where = {tuple(map(int, e)): k for k, e in enumerate(fp["edges"])}
+    idx = np.array([where[tuple(sorted(map(int, e)))] for e in edges])
+    fl, fd, fa, freg = fp["length"][idx], fp["dual"][idx], fp["area"], fp["regular"][idx]
+    wc = fp["well_centred"]
+    ewc = wc[edges[:, 0]] & wc[edges[:, 1]]                      # edges with two well-centred end points
+    bwc = ewc[bidx]
+    same_boundary = set(map(int, bidx)) == set(int(k) for k in np.nonzero(fp["boundary"][idx])[0])
+    safe_d = np.where(freg, fd, 1.0)
+    safe_a = np.where(wc, fa, 1.0)
+    Dfp, Lfp, Bfp = (refops.divergence(n, edges, safe_d, safe_a), refops.laplacian(n, edges, safe_d, fl, safe_a),
+                     refops.neumann(n, edges, bidx, fl, safe_a))
+    sub = np.ix_(wc, wc)
+    M_fp = fa[:, None] * L
+    scalar.update({
+        "edge_length_eq_first_principles": quanta(length, fl),
+        "dual_length_eq_first_principles": quanta(dual[freg], fd[freg]),
+        "cell_area_eq_first_principles": quanta(area[wc], fa[wc]),
+        "boundary_edges_eq_first_principles": 0 if same_boundary else 10 ** 9,
+        "operators_eq_formula_first_principles": max(quanta(D[wc], Dfp[wc]), quanta(G, refops.gradient(n, edges, fl)),
+                                                     quanta(L[wc], Lfp[wc]), quanta(B[wc], Bfp[wc])),
+        "fp_weighted_div_sums_to_zero": quanta((fa @ D)[ewc], np.zeros(int(ewc.sum())), scale=float(dual.max())),
+        "fp_weighted_lap_symmetric": quanta(M_fp[sub], M_fp[sub].T),
+        "fp_boundary_flux_integrates": quanta((fa @ B)[bwc], fl[bidx][bwc]),
+    })
     # the same operators as assembled by MeshOperators.build_operators (what every solve uses), for every
     # documented sparse_solver option; each fact is the worst residual over the options
     asm = assembled_operators(tdgl, mesh)
@@ -537,7 +591,8 @@ def float_trace(tdgl, a, tmp):
                                                           quanta(np.asarray(rm.areas) @ rB, geo[np.asarray(rem.boundary_edge_indices)]))
     scalar.update(rfacts)
     kdim = int((np.abs(lam) <= 1e-9 * lscale).sum())
-    ev = [{"ev": "facts", "group": "scalar", "facts": scalar, "kdim": kdim}]
+    ev = [{"ev": "facts", "group": "scalar", "facts": scalar, "kdim": kdim, "nsites": int(n), "wc": int(wc.sum()),
+           "reflex_wc": int((fp["reflex"] & wc).sum())}]
     # sites that play the part of current terminals (fixed sites of MeshOperators)
     if dev is not None and dev.terminals:
         fixed = np.concatenate([t.site_indices for t in dev.terminal_info()]).astype(np.int64)
@@ -580,6 +635,8 @@ def float_trace(tdgl, a, tmp):
                                                                 quanta(area[:, None] * Lp, (area[:, None] * Lp).conj().T))
         ev.append({"ev": "facts", "group": "cov", "kdim": 0, "nfixed": int(len(fixed)), "facts": {
             **pinfacts,
+            "fp_covlap_hermitian": max(quanta((fa[:, None] * Lr)[sub], (fa[:, None] * Lr)[sub].conj().T),
+                                       quanta((fa[:, None] * Lb)[sub], (fa[:, None] * Lb)[sub].conj().T)),
             "covgrad_code_eq_formula": quanta(Gb, Gf), "covlap_code_eq_formula": quanta(Lb, Lf),
             "covgrad_refresh_eq_formula": quanta(Gr, Gf), "covlap_refresh_eq_formula": quanta(Lr, Lf),
             "covlap_hermitian": max(quanta(aLA, aLA.conj().T), quanta(area[:, None] * Lb, (area[:, None] * Lb).conj().T)),
@@ -601,6 +658,8 @@ def float_trace(tdgl, a, tmp):
         }})
         mo.set_link_exponents(A)
     return {"kind": "float", "mi": 0, "pat": 0, "geo": False, "heavy": False, "comps": comps, "mesh": {},
+            "reflex": bool(a.get("reflex", False)), "route": route_of(a),
+            "well_centred_sites": int(wc.sum()), "reflex_well_centred_sites": int((fp["reflex"] & wc).sum()),
             "ev": ev, "label": a.get("label", a["kind"]), "sites": int(n), "edges": int(m), "lu_singular": lu_singular,
             "solver_option_notes": {k: v[4] for k, v in asm.items()}}
 
@@ -609,7 +668,7 @@ def float_trace(tdgl, a, tmp):
 
 
 def strip(t):
-    return {k: t[k] for k in ("kind", "mi", "pat", "geo", "heavy", "comps", "mesh", "ev")}
+    return dict({k: t[k] for k in ("kind", "mi", "pat", "geo", "heavy", "comps", "mesh", "ev")}, reflex=bool(t.get("reflex", False)))
 
 
 def validate(ctx, traces, what, invariants, max_report=4):
@@ -717,19 +776,66 @@ def replay_file(ctx, path, invariants, what):
 
 FLOAT_MESHES_QUICK = [
     dict(kind="device", label="meshpy/film", mel=0.7),
-    dict(kind="device", label="meshpy/film+hole/smoothed", mel=0.6, holes=[(0.3, 0.1, 0.6)], smooth=30),
-    dict(kind="device", label="meshpy/bar+terminals/2holes", mel=0.6, holes=[(-1.2, 0.2, 0.5), (1.1, -0.3, 0.45)], terminals=True, smooth=5),
+    dict(kind="device", label="meshpy/film+hole/smoothed", mel=0.6, holes=[(0.3, 0.1, 0.6)], smooth=30, reflex=True),
+    dict(kind="device", label="meshpy/bar+terminals/2holes", mel=0.6, holes=[(-1.2, 0.2, 0.5), (1.1, -0.3, 0.45)], terminals=True, smooth=5,
+         reflex=True),
     dict(kind="device", label="meshpy/disk/xi=0.5", shape="disk", size=(4.0, 4.0), mel=0.5, xi=0.5, smooth=10),
     dict(kind="lattice", label="lattice/(4,0),(2,3)/7x6", nx=7, ny=6),
     dict(kind="lattice", label="lattice/(6,0),(3,4)/5x8", nx=5, ny=8, b1=(6.0, 0.0), b2=(3.0, 4.0), scale=0.21),
     dict(kind="delaunay", label="delaunay/random/0", seed=0, nb=8, nin=40),
     dict(kind="delaunay", label="delaunay/random/1", seed=1, nb=10, nin=70),
+    # re-entrant corner (notch) and hole; the other public routes to a mesh: Polygon.make_mesh (with smooth >= 1 the submesh
+    # is built by Mesh.smooth itself) and Mesh.smooth(n) on an existing mesh
+    dict(kind="device", label="meshpy/notch+hole", notch=True, holes=[(-1.0, -0.2, 0.5)], mel=0.6, reflex=True),
+    dict(kind="polygon", label="polygon.make_mesh/notch", notch=True, min_points=100, reflex=True),
+    dict(kind="polygon", label="polygon.make_mesh/smooth=5", min_points=150, smooth=5),
+    dict(kind="polygon", label="polygon.make_mesh/notch/smooth=2", notch=True, min_points=100, smooth=2, reflex=True),
+    dict(kind="smoothed", label="mesh.smooth(3)/delaunay", base=dict(kind="delaunay", seed=0, nb=8, nin=40), n=3),
+    dict(kind="smoothed", label="mesh.smooth(1)/meshpy film+hole", base=dict(kind="device", mel=0.6, holes=[(0.3, 0.1, 0.6)]), n=1, reflex=True),
 ]
+ROUTES = {"device": "Device.make_mesh", "lattice": "Mesh.from_triangulation", "delaunay": "Mesh.from_triangulation",
+          "smoothed": "Mesh.smooth(n)"}
+
+
+def route_of(m):
+    if m["kind"] == "polygon":
+        return "Polygon.make_mesh(smooth=n)" if m.get("smooth") else "Polygon.make_mesh"
+    return ROUTES[m["kind"]]
+
+
+REQUIRED_ROUTES = {"Device.make_mesh", "Polygon.make_mesh", "Polygon.make_mesh(smooth=n)", "Mesh.smooth(n)", "Mesh.from_triangulation"}
+
+
+def check_float_coverage(traces):
+    """Vacuity guards of the float-mesh family (machinery, never a verdict): every public route to a mesh is present, the
+    first-principles weights were compared on >= 80 % of every mesh and on reflex boundary sites where the film has them."""
+    fl = [t for t in traces if t["kind"] == "float"]
+    missing = REQUIRED_ROUTES - {t["route"] for t in fl}
+    if missing:
+        raise core.MachineryFailure(f"float meshes: no mesh obtained through {sorted(missing)}")
+    for t in fl:
+        if t["well_centred_sites"] * 10 < t["sites"] * 8:
+            raise core.MachineryFailure(f"float mesh {t['label']}: only {t['well_centred_sites']} of {t['sites']} sites are well centred")
+        if t["reflex"] and t["reflex_well_centred_sites"] == 0:
+            raise core.MachineryFailure(f"float mesh {t['label']}: no well-centred reflex boundary site (hole / notch expected)")
+    if not any(t["reflex"] for t in fl):
+        raise core.MachineryFailure("float meshes: none with a hole or a re-entrant corner")
 
 
 def float_meshes(ctx):
     out = [dict(m, seed=ctx.seed + k) if "seed" not in m else dict(m, seed=m["seed"] + 100 * ctx.seed)
            for k, m in enumerate(FLOAT_MESHES_QUICK)]
+    if not ctx.quick:
+        rnd2 = random.Random(ctx.seed + 5)
+        for k in range(8):
+            out.append(dict(kind="polygon", label=f"polygon.make_mesh/t{k}", notch=bool(k % 2), reflex=bool(k % 2),
+                            min_points=rnd2.choice([120, 200, 300]), smooth=rnd2.choice([0, 1, 2, 5, 10])))
+        for k in range(6):
+            base = rnd2.choice([dict(kind="delaunay", seed=50 + k, nb=rnd2.randint(7, 12), nin=rnd2.randint(30, 90)),
+                                dict(kind="device", mel=0.6, holes=[(0.3, 0.1, 0.6)]),
+                                dict(kind="lattice", nx=8, ny=7)])
+            out.append(dict(kind="smoothed", label=f"mesh.smooth/t{k}/{base['kind']}", base=base, n=rnd2.choice([1, 2, 4]),
+                            reflex=bool(base.get("holes"))))
     if not ctx.quick:
         rnd = random.Random(ctx.seed)
         for k in range(10):
